@@ -26,6 +26,29 @@ func (f fakeTpl) Execute(w io.Writer, data any) error {
 	return err
 }
 
+// a template that fails in the middle of its execution, after it has produced output
+type fakeBadTpl struct{ v int }
+
+var errExec = errors.New("template execution failed")
+
+func (f fakeBadTpl) Execute(w io.Writer, data any) error {
+	fmt.Fprintf(w, "partial-%d-", f.v)
+	return errExec
+}
+
+// a client that goes away: the first Write fails (after taking some of the bytes)
+type brokenWriter struct {
+	h http.Header
+}
+
+var errClient = errors.New("client went away")
+
+func (r *brokenWriter) Header() http.Header { return r.h }
+func (r *brokenWriter) Write(p []byte) (int, error) {
+	return len(p) / 2, errClient
+}
+func (r *brokenWriter) WriteHeader(int) {}
+
 type notFound struct{ v int }
 
 func (e notFound) Error() string { return fmt.Sprintf("no template in set %d", e.v) }
@@ -36,6 +59,9 @@ type fakeMgr struct{ v int }
 func (m fakeMgr) GetTemplate(name string) (types.Template, error) {
 	if name == "t" {
 		return fakeTpl{m.v}, nil
+	}
+	if name == "bad" {
+		return fakeBadTpl{m.v}, nil
 	}
 	return nil, notFound{m.v}
 }
@@ -151,6 +177,19 @@ func runReloadHistory(hot bool, first bool, ops string) (line string, c18 string
 					out = sb.String()
 				}
 			} else {
+				if !hot && last != 0 {
+					// requests that FAIL must leave nothing behind for the next one: a template that fails after producing
+					// output, and a client that goes away in the middle of the response
+					wb := &respWriter{h: http.Header{}}
+					if eb := r.Instance(ctx, "bad", nil).Render(wb); eb == nil {
+						c18 = "a request whose template execution failed was answered without an error"
+					} else if !errors.Is(eb, errExec) && !errors.Is(eb, html.ErrTplNotFound) {
+						c18 = fmt.Sprintf("the error of a failing template execution does not wrap its cause: %v", eb)
+					}
+					if eb := r.Instance(ctx, "t", nil).Render(&brokenWriter{h: http.Header{}}); !errors.Is(eb, errClient) {
+						c18 = fmt.Sprintf("a request whose client went away did not return the writer's error: %v", eb)
+					}
+				}
 				w := &respWriter{h: http.Header{}}
 				inst := r.Instance(ctx, name, nil)
 				e = inst.Render(w)
